@@ -2110,6 +2110,7 @@ void decompressDataSeries_double_2D_MSST19(double** data, size_t r1, size_t r2, 
 		memcpy(multisteps->hist_data, (*data), dataSeriesLength*sizeof(double));
 #endif	
 
+	free(precisionTable);
 	free(leadNum);
 	free(type);
 	return;
@@ -2666,6 +2667,7 @@ void decompressDataSeries_double_3D_MSST19(double** data, size_t r1, size_t r2, 
 		memcpy(multisteps->hist_data, (*data), dataSeriesLength*sizeof(double));
 #endif		
 
+	free(precisionTable);
 	free(leadNum);
 	free(type);
 	return;
